@@ -322,6 +322,14 @@ FamAbsOps ==
                               Op("C", "query", <<>>, <<FS("", "named", <<Spr("P")>>), FS("", "any", <<Inl("Named", <<Spr("P")>>)>>)>>)>>,
                      frags |-> <<AbsOpsFrag>>], n, NoVars, {}) : n \in {"A", "B", "C"} }
 
+\* one Go struct type met as a value under an object typed field and through a pointer under interface / union typed fields,
+\* in both orders (the binding of the GraphQL type must recognise either form whichever was seen first)
+FamForms ==
+  { Plain("forms", s) : s \in UNION { {
+      <<FS("", "pv", <<F("", "name"), TN>>), FS("", top, <<TN, Inl("P", <<F("", "n")>>), F("", "name")>>)>>,
+      <<FS("", top, <<TN, Inl("P", <<F("", "n")>>), F("", "name")>>), FS("", "pv", <<F("", "name"), TN>>)>>,
+      <<FS("", top, <<Inl("Solo", <<TN>>), F("x", "say")>>), FS("", "pv", <<F("", "n")>>)>> } : top \in {"pp", "ps"} } }
+
 \* undefined field under a union member / interface member reached through a condition-less fragment (C10, reflection only)
 FamDefectsAbs ==
   \* one selection resolved in containers of different types (members of a list of an interface / union type): an argument
@@ -355,5 +363,5 @@ Families ==
   [ flat |-> FamFlat, nest1 |-> FamNest1, nest2 |-> FamNest2, nest3 |-> FamNest3,
     inline1 |-> FamInline1, inline2 |-> FamInline2, spread |-> FamSpread, dups |-> FamDups,
     args |-> FamArgs, ops |-> FamOps, dirs |-> FamDirs, dirvars |-> FamDirVars, defect |-> FamDefects,
-    inputs |-> FamInputs, mixed |-> FamMixed, abstract |-> FamAbstract, absops |-> FamAbsOps, defectabs |-> FamDefectsAbs, faultnth |-> FamFaultsNth, fault0 |-> FamFaults0, fault1 |-> FamFaults1, fault2 |-> FamFaults2 ]
+    inputs |-> FamInputs, mixed |-> FamMixed, abstract |-> FamAbstract, absops |-> FamAbsOps, forms |-> FamForms, defectabs |-> FamDefectsAbs, faultnth |-> FamFaultsNth, fault0 |-> FamFaults0, fault1 |-> FamFaults1, fault2 |-> FamFaults2 ]
 =============================================================================
